@@ -67,6 +67,7 @@ func (p *pendingRequests) store(request Request) int16 {
 	select {
 	case stream := <-p.streams:
 		p.pending.Store(stream, request)
+		verifTrace("push", p, int(stream), request)
 		return stream
 	default:
 		return -1
@@ -76,6 +77,7 @@ func (p *pendingRequests) store(request Request) int16 {
 func (p *pendingRequests) loadAndDelete(stream int16) Request {
 	request, ok := p.pending.LoadAndDelete(stream)
 	if ok {
+		verifTrace("pop", p, int(stream), request)
 		p.streams <- stream
 		return request.(Request)
 	}
@@ -85,6 +87,7 @@ func (p *pendingRequests) loadAndDelete(stream int16) Request {
 func (p *pendingRequests) closing(err error) {
 	p.pending.Range(func(key, value interface{}) bool {
 		request := value.(Request)
+		verifTrace("notify", p, int(key.(int16)), request)
 		request.OnClose(err)
 		return true
 	})
